@@ -37,11 +37,17 @@ REWRITES = {
     "internal/controller/controller.go": [
         (r"\btime\.Sleep\(", "verifhook.Sleep(", 1),
     ],
+    # the sensor monitor reads no clock today; if a change makes the smoothing depend on elapsed time, the streams
+    # control that time (virtual clock) instead of the wall clock (seed C08d)
+    "internal/monitor.go": [
+        (r"\btime\.Now\(\)", "verifhook.Now()", 0),
+    ],
 }
 KEEPALIVE = {
     "internal/util/file.go": "\nvar _ = atomic.WriteFile\nvar _ = os.ReadFile\n",
     "internal/util/pid.go": "\nvar _ = time.Now\n",
     "internal/controller/controller.go": "\nvar _ = time.Sleep\n",
+    "internal/monitor.go": "\nvar _ = time.Now\nvar _ = verifhook.Now\n",
 }
 
 
